@@ -38,7 +38,8 @@ from .values import (
 class Loop:
     """Invariant / variant of the n-th loop (source order) of a function."""
 
-    def __init__(self, invariants=(), decreases=None, vars=None, header=None):
+    def __init__(self, invariants=(), decreases=None, vars=None, header=None, modifies=()):
+        self.modifies = list(modifies)  # heap objects (local names / name.field) the body may mutate
         self.invariants = list(invariants)
         self.decreases = decreases
         self.vars = dict(vars or {})  # name -> sort, for variables whose sort cannot be inferred
@@ -103,6 +104,7 @@ class Contract:
 class ContractDB:
     def __init__(self):
         self.contracts: dict[str, Contract] = {}
+        self.by_func: dict[str, Contract] = {}
         self.inline: set[str] = set()
         self.opaque_attrs: dict = {}
         self.opaque_methods: dict = {}
@@ -110,13 +112,21 @@ class ContractDB:
         self.ctors: dict = {}
         self.spec_module = "verif_specs"
         self.spec_builtins = dict(SPEC_BUILTINS)
+        self.assumed_collaborators = set()
+        self.const_overrides = {}
+        # the library logger: calls are recorded on the ghost trace, no other effect
+        self.const_overrides[("xsdata.logger", "logger")] = Opaque("Logger", z3.Const("xsdata_logger", z3sort(("u", "Logger"))))
+        for m in ("warning", "info", "debug", "error"):
+            assume_method(self, "Logger", m)
 
     def add(self, c: Contract):
         self.contracts[c.key] = c
+        if c.variant is None or c.func not in self.by_func:
+            self.by_func[c.func] = c
         return c
 
     def get(self, key):
-        return self.contracts.get(key)
+        return self.contracts.get(key) or self.by_func.get(key)
 
     def is_inline(self, key):
         if key.startswith(self.spec_module + ":"):
@@ -148,6 +158,10 @@ class ContractDB:
             for a in d.wf():
                 st.assume(a)
             return st.alloc(d)
+        if spec.startswith("set["):
+            from .values import SSet
+
+            return st.alloc(SSet(spec[4:-1], base=base))
         if spec.startswith("obj:"):
             return st.alloc(Obj(spec[4:], {}))
         if spec.startswith("opaque:"):
@@ -242,12 +256,51 @@ def _sb_int_of_signed(ex, st, args, kwargs):
     yield st, SV("bool", bm.int_of_signed_instance(c, sg, d))
 
 
+def _sb_py_isalpha(ex, st, args, kwargs):
+    from .builtins_calls import _m_isalpha
+
+    yield from _m_isalpha(ex, st, args[0], [], {})
+
+
+def _sb_py_isdigit(ex, st, args, kwargs):
+    from .builtins_calls import _m_isdigit
+
+    yield from _m_isdigit(ex, st, args[0], [], {})
+
+
+def _sb_unmodified(ex, st, args, kwargs):
+    """No mutating collaborator call on the (opaque) object was recorded on this path."""
+    (o,) = args
+    hit = False
+    for ev in st.trace:
+        if ev[0] == "mutate":
+            r = bm.values_equal(ex, st, ev[1], o)
+            if r is True:
+                hit = True
+            elif r is not False:
+                raise Unsupported("unmodified(): aliasing of opaque objects is symbolic")
+    yield st, not hit
+
+
+def _sb_uf(ex, st, args, kwargs):
+    """uf('name', sort, args...): an uninterpreted function of the arguments (a value determined by
+    the arguments alone)."""
+    name, sort = args[0], args[1]
+    yield st, pure_result(ex, st, name, sort, list(args[2:]))
+
+
+def _sb_called(ex, st, args, kwargs):
+    """called('Kind.meth'): number of recorded calls of that collaborator method on this path."""
+    (name,) = args
+    yield st, sum(1 for ev in st.trace if ev[0] == "call" and ev[1] == name)
+
+
 def _sb_py_strip(ex, st, args, kwargs):
     (s,) = args
     yield st, bm.model_strip(ex, st, s)
 
 
-SPEC_BUILTINS = {"int_of_signed": _sb_int_of_signed, "strip_padded": _sb_strip_padded, "strip_unique": _sb_strip_unique, "py_strip": _sb_py_strip, "pad": _sb_pad, "matches": _sb_matches, "nat": _sb_nat, "key_at": _sb_key_at, "val_at": _sb_val_at,
+SPEC_BUILTINS = {"unmodified": _sb_unmodified, "uf": _sb_uf, "called": _sb_called, "py_isalpha": _sb_py_isalpha, "py_isdigit": _sb_py_isdigit, "int_of_signed": _sb_int_of_signed, "strip_padded": _sb_strip_padded, "strip_unique": _sb_strip_unique, "py_strip": _sb_py_strip, "pad": _sb_pad, "matches": _sb_matches, "nat": _sb_nat, "key_at": _sb_key_at, "val_at": _sb_val_at,
                  "same_dict": _sb_same_dict}
 
 
@@ -258,6 +311,66 @@ def bm_split(s):
     if len(parts) != 2:
         raise ValueError(f"dict sort needs two components: {s}")
     return parts[0].strip(), parts[1].strip()
+
+
+def assume_method(db, kind, meth, returns=None, raises=(), mutates=False, pure=False, custom=None):
+    """Declare the ASSUMED contract of a method of an abstract collaborator (opaque kind).
+
+    returns : sort spec of the result (None -> returns None); with ``pure`` the result is a
+              deterministic uninterpreted function of (receiver, scalar arguments)
+    raises  : exception class names the call may raise (always possible)
+    mutates : the call is recorded as a mutation of the receiver on the ghost trace
+    """
+    db.opaque_attrs[(kind, meth)] = ("method", None)
+
+    def handler(ex, st, recv, args, kwargs):
+        st.trace.append(("call", f"{kind}.{meth}", recv, tuple(args), tuple(sorted(kwargs.items(), key=lambda kv: kv[0]))))
+        if mutates:
+            st.trace.append(("mutate", recv))
+        for e in raises:
+            st_e = st.fork()
+            yield ex.raise_(st_e, e)
+        if custom is not None:
+            yield from custom(ex, st, recv, args, kwargs)
+            return
+        if returns is None:
+            yield st, None
+            return
+        if pure:
+            yield st, pure_result(ex, st, f"{kind}.{meth}", returns, [recv] + list(args))
+        else:
+            yield st, db.make_value(ex, st, returns, f"{kind}_{meth}")
+
+    db.opaque_methods[(kind, meth)] = handler
+    db.assumed_collaborators.add(f"{kind}.{meth}")
+
+
+def pure_result(ex, st, name, returns, args):
+    """Deterministic result: uninterpreted function(s) of the scalar/opaque arguments."""
+    zargs = []
+    for a in args:
+        a = st.deref(a)
+        if isinstance(a, (SV, Opaque)):
+            zargs.append(a.t)
+        elif isinstance(a, bm.SSeq):
+            zargs += [a.n, a.arr]
+        elif isinstance(a, (bool, int, str)):
+            zargs.append(lift(a))
+        elif a is None:
+            continue
+        else:
+            raise Unsupported(f"pure collaborator call {name} with argument {a!r}")
+    returns = returns.strip()
+    if returns.startswith("seq["):
+        es = parse_sort(returns[4:-1])
+        fn = ex.uf(name + ".n", *[z.sort() for z in zargs], z3.IntSort())
+        fa = ex.uf(name + ".a", *[z.sort() for z in zargs], z3.ArraySort(z3.IntSort(), z3sort(es)))
+        n = fn(*zargs) if zargs else fn()
+        bm.axiom(n >= 0)
+        return bm.SSeq(es, n, fa(*zargs) if zargs else fa())
+    rs = parse_sort(returns)
+    f = ex.uf(name, *[z.sort() for z in zargs], z3sort(rs))
+    return SV(rs, f(*zargs) if zargs else f())
 
 
 class Maker:
@@ -309,7 +422,7 @@ def eval_spec(ex: Exec, st: State, expr, env: dict, what=""):
     try:
         for st1, v in ex.ev(node, st0):
             if isinstance(v, Exc):
-                if not ex.feasible(st1.pc):
+                if not ex.feasible(st1.pc) or not ex.feasible(st1.pc, deep=True):
                     continue
                 raise Unsupported(f"contract clause {what or expr!r} raises {v.exc.cls}")
             t = ex.truthy(st1, v)
@@ -386,7 +499,9 @@ def _quant(is_forall):
         pos, neg = [], []
         for st1, v in ex.ev(lam.body, st0):
             if isinstance(v, Exc):
-                raise Unsupported("quantifier body raises")
+                if not ex.feasible(st1.pc) or not ex.feasible(st1.pc, deep=True):
+                    continue
+                raise Unsupported(f"quantifier body raises {v.exc.cls}")
             t = bm._z(ex.truthy(st1, v))
             delta = st1.pc[base:]
             pos.append(z3.And(*delta, t) if delta else t)
@@ -467,6 +582,85 @@ def _assume_invs(ex, st, spec: Loop, extra_env=None):
         st.assume(eval_spec(ex, st, inv, env))
 
 
+def _heap_snapshot(st):
+    return {a: o.clone() for a, o in st.heap.items() if not isinstance(o, Frame)}
+
+
+def _same_val(x, y):
+    if x is y:
+        return True
+    if isinstance(x, (SV, Opaque)) and isinstance(y, (SV, Opaque)):
+        return x.t.eq(y.t)
+    if isinstance(x, tuple) and isinstance(y, tuple) and len(x) == len(y):
+        return all(_same_val(a, b) for a, b in zip(x, y))
+    try:
+        return bool(x == y)
+    except Exception:
+        return False
+
+
+def _heap_changed(before, st, allowed):
+    """Addresses of pre-existing heap objects whose content differs (loop frame check)."""
+    out = []
+    for a, o in before.items():
+        n = st.heap.get(a)
+        if n is None or a in allowed:
+            continue
+        if isinstance(o, PList):
+            same = len(o.items) == len(n.items) and all(_same_val(x, y) for x, y in zip(o.items, n.items))
+        elif isinstance(o, PDict):
+            same = list(o.items) == list(n.items) and all(_same_val(o.items[k], n.items[k]) for k in o.items)
+        elif isinstance(o, Obj):
+            same = list(o.fields) == list(n.fields) and all(_same_val(o.fields[k], n.fields[k]) for k in o.fields)
+        elif isinstance(o, SDict):
+            same = all(x.eq(y) for x, y in zip(o.terms(), n.terms()))
+        elif type(o).__name__ == "SSet":
+            same = o.has.eq(n.has)
+        elif type(o).__name__ == "PSet":
+            same = o.items == n.items
+        else:
+            same = True
+        if not same:
+            out.append(a)
+    return out
+
+
+def _modifies_addrs(st, spec):
+    addrs = set()
+    for m in spec.modifies:
+        base, _, attr = m.partition(".")
+        v = st.fr.env.get(base)
+        if attr:
+            v = st.deref(v).fields.get(attr)
+        if isinstance(v, Ref):
+            addrs.add(v.addr)
+    return addrs
+
+
+def _havoc_heap(ex, st, spec):
+    for m in spec.modifies:
+        base, _, attr = m.partition(".")
+        v = st.fr.env.get(base)
+        if attr:
+            v = st.deref(v).fields.get(attr)
+        o = st.deref(v)
+        if isinstance(o, SDict):
+            _havoc_dict(st, o)
+        elif type(o).__name__ == "SSet":
+            o.has = z3.Array(fresh_name("hvset"), z3sort(o.esort), z3.BoolSort())
+        elif isinstance(o, Opaque):
+            pass
+        else:
+            raise Unsupported(f"loop modifies {m}: cannot havoc {o!r} (use a symbolic dict/set)")
+
+
+def _frame_check(ex, st, before, spec, fname, ordinal):
+    changed = _heap_changed(before, st, _modifies_addrs(st, spec))
+    if changed:
+        raise Unsupported(f"{fname}: loop {ordinal} mutates heap objects not listed in Loop.modifies: "
+                          f"{[repr(before[a])[:60] for a in changed]}")
+
+
 def run_while(ex: Exec, node: ast.While, st: State):
     spec, ordinal, fname = ex.loop_spec(node, st)
     if spec is None:
@@ -477,7 +671,9 @@ def run_while(ex: Exec, node: ast.While, st: State):
     _check_invs(ex, st, spec, "init", fname, ordinal)
     names, attrs = assigned_names(node.body)
     _havoc(ex, st, names, attrs, spec)
+    _havoc_heap(ex, st, spec)
     _assume_invs(ex, st, spec)
+    before = _heap_snapshot(st)
     v0 = None
     if spec.decreases:
         v0 = eval_term(ex, st, spec.decreases, st.fr.env)
@@ -490,6 +686,7 @@ def run_while(ex: Exec, node: ast.While, st: State):
                 yield from ex.run_block(node.orelse, st2) if node.orelse else [(st2, ("normal", None))]
                 continue
             for st3, out in ex.run_block(node.body, st2):
+                _frame_check(ex, st3, before, spec, fname, ordinal)
                 if out[0] in ("normal", "continue"):
                     _check_invs(ex, st3, spec, "preserve", fname, ordinal)
                     if v0 is not None:
@@ -582,12 +779,18 @@ def _cut_for(ex, node, st, it):
         if isinstance(x, ast.Name):
             names.discard(x.id)
     _havoc(ex, st, names, attrs, spec)
+    _havoc_heap(ex, st, spec)
     i = z3.Int(fresh_name("_i"))
     _CUR_ST[0] = st
     n, elem = _sym_iter(ex, it, i)
     st.assume(i >= 0)
     st.assume(i <= n)
+    if isinstance(it, DictView):
+        # ground instance of the dict's well-formedness for the current entry
+        d = st.get(it.d)
+        st.assume(z3.Implies(i < n, z3.And(d.has[d.key_at[i]], d.pos[d.key_at[i]] == i)))
     _assume_invs(ex, st, spec, {"_i": SV("int", i)})
+    before = _heap_snapshot(st)
     for st1, more in ex.branch(st, SV("bool", i < n)):
         if not more:
             if node.orelse:
@@ -600,6 +803,7 @@ def _cut_for(ex, node, st, it):
                 yield st2, ("raise", r.exc)
                 continue
             for st3, out in ex.run_block(node.body, st2):
+                _frame_check(ex, st3, before, spec, fname, ordinal)
                 if out[0] in ("normal", "continue"):
                     _check_invs(ex, st3, spec, "preserve", fname, ordinal, {"_i": SV("int", i + 1)})
                 elif out[0] == "break":
@@ -665,6 +869,10 @@ def _havoc_target(ex, st, env, m):
     o = st.deref(env[m])
     if isinstance(o, SDict):
         _havoc_dict(st, o)
+    elif isinstance(o, Opaque):
+        st.trace.append(("mutate", o))
+    elif type(o).__name__ == "SSet":
+        o.has = z3.Array(fresh_name("hvset"), z3sort(o.esort), z3.BoolSort())
     else:
         raise Unsupported(f"modifies {m}: unsupported target {o!r}")
 
